@@ -20,8 +20,8 @@ MODULES = ['CirqVerif.Props.C02']
 
 
 # ------------------------------------------------------------------------------ circuit generator
-def gen_circuit(cirq, rng, clifford=False, qudits=False):
-    n = rng.randint(1, 3)
+def gen_circuit(cirq, rng, clifford=False, qudits=False, deep=False):
+    n = rng.randint(2, 3) if deep else rng.randint(1, 3)
     dims = [2] * n
     if qudits:
         dims = [rng.choice([2, 3]) for _ in range(n)]
@@ -43,13 +43,27 @@ def gen_circuit(cirq, rng, clifford=False, qudits=False):
             return rng.choice([cirq.H, cirq.X**0.5, cirq.Y**0.25, cirq.X, cirq.ry(1.1), cirq.X**0.3, cirq.T]).on(*t)
         return rng.choice([cirq.CNOT, cirq.CZ**0.5, cirq.ISWAP**0.5, cirq.SWAP, cirq.CZ]).on(*t)
 
+    def pauli_measurement():
+        nonlocal nkeys
+        k = min(rng.choice([1, 2, 2, 3]), n)
+        t = rng.sample(qs, k)
+        ps = cirq.DensePauliString([rng.choice([cirq.X, cirq.Y, cirq.Z]) for _ in t], coefficient=rng.choice([1, 1, -1])).on(*t)
+        key = 'k%d' % nkeys
+        nkeys += 1
+        keys_seen.append(key)
+        return cirq.measure_single_paulistring(ps, key=key)
+
     def measurement():
         nonlocal nkeys
+        if not qudits and rng.random() < 0.25:
+            return pauli_measurement()
         k = min(rng.choice([1, 1, 2, 3]), n)
         t = rng.sample(qs, k)
         if keys_seen and rng.random() < 0.25:
             key = rng.choice(keys_seen)  # repeated key (same number of qubits required)
             prev = [o for o in ops if cirq.is_measurement(o) and key in cirq.measurement_key_names(o)][0]
+            if isinstance(prev.gate, cirq.PauliMeasurementGate):
+                return cirq.measure(*rng.sample(qs, 1), key=key)
             t = rng.sample(qs, len(prev.qubits)) if len(prev.qubits) <= n else t
             if [q.dimension for q in t] != [q.dimension for q in prev.qubits]:
                 t = list(prev.qubits)
@@ -67,6 +81,13 @@ def gen_circuit(cirq, rng, clifford=False, qudits=False):
                 m = np.array([[1.0 if j == (i + 1) % d else 0.0 for j in range(d)] for i in range(d)])  # deterministic relabel
             m = m / m.sum(axis=1, keepdims=True)
             cm = {pos: m}
+            if len(t) >= 2 and rng.random() < 0.3:
+                # a second group, possibly overlapping the first (each group is conditioned on the actual outcome)
+                pos2 = tuple(sorted(rng.sample(range(len(t)), rng.choice([1, 2]))))
+                if pos2 != pos:
+                    d2 = int(np.prod([t[p].dimension for p in pos2]))
+                    m2 = np.array([[rng.random() + (2 if i == j else 0) for j in range(d2)] for i in range(d2)])
+                    cm[pos2] = m2 / m2.sum(axis=1, keepdims=True)
         return cirq.MeasurementGate(len(t), key=key, invert_mask=inv, confusion_map=cm, qid_shape=tuple(q.dimension for q in t)).on(*t)
 
     def controlled():
@@ -86,7 +107,7 @@ def gen_circuit(cirq, rng, clifford=False, qudits=False):
                                             equal_target=rng.random() < 0.5, bitmask=mask)
         return base.with_classical_controls(cond)
 
-    for _ in range(rng.randint(1, 7)):
+    for _ in range(rng.randint(6, 11) if deep else rng.randint(1, 7)):
         r = rng.random()
         if r < 0.45 or (not keys_seen and r < 0.6):
             ops.append(unitary_op())
@@ -132,6 +153,16 @@ def lean_ops(cirq, circuit, order):
             g = op.gate
             cms = [{'positions': list(k), 'matrix': [[common.f2b(x) for x in row] for row in np.asarray(m)]} for k, m in g.confusion_map.items()]
             return {'kind': 'meas', 'key': str(g.key), 'axes': [pos[q] for q in op.qubits], 'invert': [bool(b) for b in g.full_invert_mask()], 'confusion': cms}
+        if isinstance(op.gate, cirq.PauliMeasurementGate):
+            # projectors (1 ± observable)/2 built from the Pauli factors and the sign, not from Cirq's decomposition
+            obs = op.gate.observable()
+            mats = {'I': np.eye(2), 'X': np.array([[0, 1], [1, 0]]), 'Y': np.array([[0, -1j], [1j, 0]]), 'Z': np.diag([1, -1])}
+            full = np.array([[complex(obs.coefficient)]])
+            for pg in obs:
+                full = np.kron(full, mats[str(pg)])
+            eye = np.eye(full.shape[0])
+            projs = [(eye + full) / 2, (eye - full) / 2]
+            return {'kind': 'pmeas', 'key': str(op.gate.key), 'projs': [[common.c2j(z) for z in pm.reshape(-1)] for pm in projs], 'axes': [pos[q] for q in op.qubits]}
         if isinstance(op.gate, cirq.ResetChannel):
             return {'kind': 'reset', 'axes': [pos[q] for q in op.qubits]}
         if cirq.has_unitary(op):
@@ -180,13 +211,13 @@ def run(ctx: common.Run):
     if not ok:
         ctx.report_unproved('lean-build', f'{failing}', {'theorem_or_correspondence': failing})
         return
-    n = 70 if ctx.tier == 'quick' else 900
+    n = 160 if ctx.tier == 'quick' else 1500
     rng = ctx.substream('circuits')
     corpus = common.VERIF / 'corpus' / 'C02'
     cases = []
     for i in range(n):
-        mode = rng.choice(['general'] * 5 + ['clifford'] * 2 + ['qudit'])
-        circuit, qs = gen_circuit(cirq, rng, clifford=(mode == 'clifford'), qudits=(mode == 'qudit'))
+        mode = rng.choice(['general'] * 4 + ['clifford'] * 2 + ['clifford-deep'] * 2 + ['qudit'])
+        circuit, qs = gen_circuit(cirq, rng, clifford=mode.startswith('clifford'), qudits=(mode == 'qudit'), deep=(mode == 'clifford-deep'))
         cases.append((mode, circuit, qs))
     # the F1 witness (terminal measurement with invert mask and asymmetric confusion map) always runs
     q = cirq.LineQubit(0)
@@ -202,7 +233,7 @@ def run(ctx: common.Run):
     outs = ctx.driver.ask(reqs)
     for (mode, circuit, qs), out in zip(cases, outs):
         want = lean_dist(out)
-        ctx.count('mode', mode.split('-')[0])
+        ctx.count('mode', mode if mode.startswith('clifford') else mode.split('-')[0])
         terminal = circuit.are_all_measurements_terminal()
         ctx.count('placement', 'terminal' if terminal else 'mid-circuit')
         ctx.case(repr(circuit), len(want) >= 2, sample={'circuit': str(circuit), 'branches': len(want)} if len(want) >= 3 and len(ctx.samples) < 3 else None)
@@ -211,7 +242,7 @@ def run(ctx: common.Run):
             'Simulator[split=False]': lambda p: cirq.Simulator(seed=p, dtype=np.complex128, split_untangled_states=False),
             'DensityMatrixSimulator': lambda p: cirq.DensityMatrixSimulator(seed=p, dtype=np.complex128),
         }
-        if mode == 'clifford':
+        if mode.startswith('clifford'):
             sims['CliffordSimulator'] = lambda p: cirq.CliffordSimulator(seed=p)
             sims['StabilizerSampler'] = lambda p: cirq.StabilizerSampler(seed=p)
         for sname, mk in sims.items():
@@ -222,6 +253,11 @@ def run(ctx: common.Run):
                 got = enumerate_branches(once)
             except (ValueError, TypeError, NotImplementedError) as e:
                 ctx.count('sim_error', f'{sname}:{type(e).__name__}')
+                continue
+            except RuntimeError as e:
+                if 'too many branches' not in str(e):
+                    raise
+                ctx.count('sim_skip', f'{sname}:branch-cap')
                 continue
             ctx.count('simulator', sname)
             if not dist_close(got, want):
@@ -239,7 +275,9 @@ def run(ctx: common.Run):
             if step is not None:
                 before = step.state_vector(copy=True)
                 step.sample(list(qs), repetitions=3)
-                step.sample_measurement_ops([o for o in circuit.all_operations() if isinstance(o.gate, cirq.MeasurementGate)][:1], repetitions=2)
+                mops = [o for o in circuit.all_operations() if isinstance(o.gate, cirq.MeasurementGate)][:1]
+                if mops:
+                    step.sample_measurement_ops(mops, repetitions=2)
                 after = step.state_vector(copy=True)
                 ctx.count('check', 'sample-is-pure')
                 if not np.allclose(before, after, atol=1e-9):
